@@ -258,6 +258,8 @@ class StoreExec:
     def const_of(self, node, local, store, ctx):
         if node is None:
             return None
+        if isinstance(node, ast.Call) and id(node) in (ctx.get("callvals") or {}):
+            return ctx["callvals"][id(node)]
         if isinstance(node, ast.Constant):
             return node.value
         if isinstance(node, ast.Name):
@@ -281,8 +283,8 @@ class StoreExec:
     def eval_test(self, test, store, local, ctx):
         """[(store, True/False/UNK)] -- evaluates relevant calls inside the test first."""
         out = []
-        for store1, _, raised in self.eval_expr(test, store, local, ctx, as_test=True):
-            out.append((store1, UNK if raised else self.truth(test, store1, local, ctx), raised))
+        for store1, verdict, raised in self.eval_expr(test, store, local, ctx, as_test=True):
+            out.append((store1, UNK if raised else verdict, raised))
         return out
 
     def truth(self, t, store, local, ctx):
@@ -302,14 +304,24 @@ class StoreExec:
         if isinstance(t, ast.UnaryOp) and isinstance(t.op, ast.Not):
             v = self.truth(t.operand, store, local, ctx)
             return UNK if v is UNK else (not v)
-        if isinstance(t, ast.Compare) and len(t.ops) == 1 and isinstance(t.ops[0], (ast.Is, ast.IsNot)):
+        if isinstance(t, ast.Compare) and len(t.ops) == 1 and isinstance(t.ops[0], (ast.Is, ast.IsNot, ast.Eq, ast.NotEq)):
             c = t.comparators[0]
-            if isinstance(c, ast.Constant) and c.value is None:
+            if isinstance(c, ast.Constant):
                 v = self.const_of(t.left, local, store, ctx)
                 if v is UNK:
                     return UNK
-                r = v is None
-                return r if isinstance(t.ops[0], ast.Is) else (not r)
+                if isinstance(t.ops[0], (ast.Is, ast.IsNot)):
+                    r = v is c.value
+                    if isinstance(v, str) and c.value is not None and not isinstance(c.value, str):
+                        r = False  # an abstract "filled" value is no constant
+                    return r if isinstance(t.ops[0], ast.Is) else (not r)
+                if isinstance(v, str) and not isinstance(c.value, str):
+                    return UNK
+                r = v == c.value
+                return r if isinstance(t.ops[0], ast.Eq) else (not r)
+            return UNK
+        if isinstance(t, ast.Compare):
+            return UNK
         v = self.const_of(t, local, store, ctx)
         if v is UNK:
             return UNK
@@ -340,10 +352,14 @@ class StoreExec:
             live = nxt
         for s, vals in live:
             self._report_reads(node, s, local, ctx)
-            if isinstance(node, ast.Call) and id(node) in vals:
+            # what the state-relevant calls inside the expression returned is known for this state
+            ctx2 = dict(ctx, callvals=vals)
+            if as_test:
+                results.append((s, self.truth(node, s, local, ctx2), None))
+            elif isinstance(node, ast.Call) and id(node) in vals:
                 results.append((s, vals[id(node)], None))
             else:
-                results.append((s, self.const_of(node, local, s, ctx), None))
+                results.append((s, self.const_of(node, local, s, ctx2), None))
         return results
 
     def _collect_calls(self, node, ctx, out):
